@@ -274,6 +274,17 @@ def check_C03(ctx):
                 cut.append('L %s %s' % (hx(pre + x[:k]), hx(b'\xbf')))
     corr(ctx, 'G-cut(end inside a character)', cut, project, exhaustive=True, describe=describe, nontrivial=nontriv,
          note='2-, 3- and 4-byte characters cut at every position by the end pointer, the missing continuation bytes right behind it')
+    # the decoder on its own (anchor src/utf8_decode.c): scalar values delivered, end / error, byte and character offsets
+    wl = gens.decoder_lines(ctx.rnd, ctx.thorough(), 3000 if not ctx.thorough() else 60000)
+    c_w, _ = vlib.run_both(ctx.snap.lib(), ctx.snap, wl[:3])
+    if any(o.strip() == 'n/a' for o in c_w):
+        ctx.rep.notes.append('utf8_decode_init / utf8_decode_next are not reachable from the driver on this tree (header or symbols gone): the decoder is tied only through is_6531_local')
+    else:
+        corr(ctx, 'W-decoder(scalar values, offsets)', wl, lambda ln, o: o, nontrivial=lambda ln, o: ',' in o,
+             describe=lambda ln, a, b: 'utf8_decode_next over these bytes delivers "%s" (scalar values, E(nd) / X (error), utf8_decode_at_byte, utf8_decode_at_character); '
+                                       'the model, whose values theorem C03_decoder_value proves to be the RFC 3629 scalar values, gives "%s"' % (a, b),
+             level=lambda ln, o: 'E' if o.split(' ')[0].endswith('E') else 'X',
+             note='decoder alone: all candidates of the UTF-8 cover, every boundary scalar value, every payload bit of a 4-byte character, random well-formed text with a malformed piece')
     # C03_ascii_agrees, on the implementation alone: modes 6531 and 5321 decide identically on pure ASCII
     lib = ctx.snap.lib()
     nonascii = [bytes.fromhex(l.split()[1]) for l in gens.local_class(5) + sub(ctx, gens.utf8_lines(False), 3) if l.split()[1] != '-']
